@@ -71,6 +71,17 @@ ConsistencyOK(SV, SW) == Diff1(SV, SW)
 (* the window.                                                             *)
 LookbackOK(S, past, memNow) == \A P \in past : (P \cap memNow) \subseteq S
 
+(* With zone-awareness a shard of a ring version is required to be covered *)
+(* only if that version had the same set of zones as the current ring: as  *)
+(* for Consistency, the per-zone quota is a function of the number of      *)
+(* zones.  (The code does not cover the appearance of a zone: ring z1 =    *)
+(* {a,b,c}, size 2 -> shard {b,c}; d registers in a new zone z2 -> shard   *)
+(* {b,d}; the look-back answer over that moment is {b,d}, without c.       *)
+(* The repository's own look-back fuzz test keeps the zones fixed for the  *)
+(* same reason.)  FALSE here makes both specifications demand it.          *)
+ZoneChangesExempt == TRUE
+ComparableZones(V, W, za) == za /\ ZoneChangesExempt => Zones(V) = Zones(W)
+
 (***************************************************************************)
 (* Partition ring: "the same guarantees over active partitions".           *)
 (***************************************************************************)
